@@ -150,7 +150,7 @@ theorem C17_refusals_open (hint : Option Nat) (metas : List MetaFile) (snapshot 
             simp only at h
             injection h with h; injection h with h1 h2
             subst h2
-            refine ⟨by simp, ?_, m, sn, rfl, List.mem_of_find?_eq_some hf, h1, by rw [hd], by intro hh; cases hh⟩
+            refine ⟨(by simp), ?_, m, sn, rfl, List.mem_of_find?_eq_some hf, h1, (by rw [hd]), (by intro hh; cases hh)⟩
             intro s' hs'; injection hs' with hs'; subst hs'; rw [← hid]; exact h1
     | none =>
       simp only at h
@@ -175,8 +175,8 @@ theorem C17_refusals_open (hint : Option Nat) (metas : List MetaFile) (snapshot 
               simp only at h
               injection h with h; injection h with h1 h2
               subst h2
-              refine ⟨by simp, by intro s hs; cases hs, m, sn, rfl, List.mem_of_find?_eq_some hf, h1, by rw [hd], ?_⟩
-              intro _; rw [← h1, hid]
+              refine ⟨(by simp), (by intro s hs; cases hs), m, sn, rfl, List.mem_of_find?_eq_some hf, h1, (by rw [hd]), ?_⟩
+              intro _; rw [← h1, hid]; exact hc
 
 /-- The four accepted URI forms denote the stated path (`p` an absolute path `/q` with `q` not starting with `/`);
     a URI with another scheme is refused. -/
@@ -207,7 +207,7 @@ theorem C17_resolve_uri (q dir : List Char) (hq : startsWith q ['/'] = false) (h
   · simp only [resolveUri, List.cons_append, List.nil_append, startsWith, beq_self_eq_true, Bool.and_self, if_true, List.drop]
     rw [htrim]; simp [startsWith]
   · have h1 : startsWith ('/' :: q) ['f', 'i', 'l', 'e', ':'] = false := by simp [startsWith]
-    simp [resolveUri, h1, hs, startsWith]
+    simp [resolveUri, hs, startsWith]
   · intro r h1 h2 h3
     simp [resolveUri, h1, h2, h3]
   · intro u h1 h2
